@@ -60,6 +60,85 @@ def outer_polars(ft, t):
     return out
 
 
+BASE_T, REFL_T = D + "get_base_face_triangle", D + "get_reflected_face_triangle"
+_gft_cache = {}
+
+
+def gft_dispatch(facts):
+    """What get_face_triangle builds, as a function of its selector parameters (everything after self and the index:
+    two bools in the reference, possibly an enum): {values: ('base',) | ('refl', squashed)}.  Obtained by finite
+    evaluation of the function's own tests for every combination of selector values."""
+    if id(facts) in _gft_cache:
+        return _gft_cache[id(facts)]
+    import itertools
+    from ..query import assumptions_by_eval, feasible_blocks, ieval, Undetermined
+    res = (None, "get_face_triangle not found")
+    if GFT in facts.fns:
+        ft = fn_terms(facts, GFT)
+        f = ft.fn
+        sel = []
+        why = None
+        for i in range(3, f["arg_count"] + 1):
+            ty = f["locals"][i]["ty"]
+            if ty == "bool":
+                sel.append((i, (0, 1)))
+                continue
+            adt = facts.adts.get(facts.crate + "::" + ty) or facts.adts.get(ty)
+            if adt is not None and adt["kind"] == "Enum" and all(not v["fields"] for v in adt["variants"]):
+                sel.append((i, tuple(range(len(adt["variants"])))))
+            else:
+                why = "selector parameter %d of get_face_triangle has type %s - cannot enumerate" % (i, ty)
+        table = {}
+        if why is None:
+            for combo in itertools.product(*[d for _i, d in sel]):
+                env = {}
+                for (i, _d), v in zip(sel, combo):
+                    env[("param", i)] = v
+                    env[("discr", ("param", i))] = v
+                A = assumptions_by_eval(ft, env)
+                feas = feasible_blocks(ft, A)
+                leafs = set()
+                try:
+                    for c in ft.calls():
+                        if c.block not in feas:
+                            continue
+                        if c.callee == BASE_T:
+                            leafs.add(("base",))
+                        elif c.callee == REFL_T:
+                            leafs.add(("refl", ieval(ft, c.args[2], env, A)))
+                except Undetermined as e:
+                    why = "squashed flag of the reflected triangle is not a function of the selector parameters (%s)" % e
+                    break
+                if len(leafs) != 1:
+                    why = "selector values %s reach %d triangle constructors" % (combo, len(leafs))
+                    break
+                table[combo] = leafs.pop()
+        res = ((sel, table), None) if why is None else (None, why)
+    _gft_cache[id(facts)] = res
+    return res
+
+
+def requested_triangle(facts, ft, call, ref_t):
+    """{reflect value r: what this call of get_face_triangle fetches when the caller's reflection flag `ref_t` is r}"""
+    from ..query import ieval, Undetermined, assumptions_by_eval
+    disp, why = gft_dispatch(facts)
+    if disp is None:
+        return None, why
+    sel, table = disp
+    out = {}
+    for r in (0, 1):
+        env = {strip_site(ref_t): r}
+        try:
+            A = assumptions_by_eval(ft, env)
+            combo = tuple(ieval(ft, call.args[i - 1], env, A) for i, _d in sel)
+        except Undetermined as e:
+            return None, "selector argument is not a function of the reflection flag alone (%s)" % e
+        if combo not in table:
+            return None, "selector values %s outside the enumerated domain" % (combo,)
+        out[r] = table[combo]
+    return out, None
+
+
 def selection(ft, run, side, poly_callee, pt_slot, ft_slot, st_slot, own_pt):
     """check the selection logic of one direction; returns the polar term used.  The triangle index and the reflection flag
     are recognised by their role (the arguments both triangle lookups share), not by the name of the helper computing them."""
@@ -70,7 +149,8 @@ def selection(ft, run, side, poly_callee, pt_slot, ft_slot, st_slot, own_pt):
     if None in (pc, gft, gst):
         run.bad("C15.S1", side + "-shape", "expected exactly one call each of the polyhedral map, get_face_triangle, get_spherical_triangle", w)
         return None
-    idx_t, ref_t = unq(gft.args[1]), peel(gft.args[2])
+    # the reflection flag is what the spherical-triangle lookup receives (its signature is the reference one)
+    idx_t, ref_t = unq(gft.args[1]), peel(gst.args[3])
     # every Polar value this function hands to a helper (a call, or a helper body spliced in) other than Polar's own
     # accessors: the index helper and the reflection helper must receive the same one
     handed = {}
@@ -99,9 +179,14 @@ def selection(ft, run, side, poly_callee, pt_slot, ft_slot, st_slot, own_pt):
 
     def is_ref(t):
         return strip_site(peel(t)) == strip_site(ref_t) and ref_t[0] not in ("const",)
-    okf = is_idx(gft.args[1]) and is_ref(gft.args[2]) and const_int(gft.args[3]) == 0
-    run.inst("C15.S1", side + "-face-triangle", okf, "get_face_triangle(%s, %s, squashed=%s)" % (fmt(gft.args[1])[:40], fmt(gft.args[2])[:40], fmt(gft.args[3])), where(gft.span))
-    oks = is_idx(gst.args[1]) and gst.args[2] == ("param", 3) and is_ref(gst.args[3])
+    req, whyreq = requested_triangle(ft.facts, ft, gft, ref_t)
+    okf = is_idx(gft.args[1]) and req == {0: ("base",), 1: ("refl", 0)}
+    run.inst("C15.S1", side + "-face-triangle", okf, "get_face_triangle(%s, ..) fetches %s (must be the base triangle without reflection and the unsquashed reflected one with it)" % (
+        fmt(gft.args[1])[:40], ("base / reflected%s" % (" squashed" if req[1] == ("refl", 1) else "") if req and req[0] == ("base",) and req[1][0] == "refl" else str(req)) if req is not None else whyreq), where(gft.span))
+    # the face is named by its number, or handed over as its own row of the face table
+    from .origin_common import row_of_table
+    own_face = gst.args[2] == ("param", 3) or row_of_table(gst.args[2]) == ("param", 3)
+    oks = is_idx(gst.args[1]) and own_face and is_ref(gst.args[3])
     run.inst("C15.S1", side + "-spherical-triangle", oks, "get_spherical_triangle(index, face=%s, reflect=%s)" % (fmt(gst.args[2]), fmt(gst.args[3])[:40]), where(gst.span))
     a = pc.args
     slot_ft = unq(a[ft_slot])
@@ -258,15 +343,43 @@ def run(ctx):
         run.note("quat_conjugate no longer exists as a function: the conjugate is checked component-wise at the Origin construction sites")
     # S3 squashed discipline
     sq_true = []
+    undecided = []
+    disp, whyd = gft_dispatch(facts)
+    from ..query import ieval as _ie, Undetermined as _Und, assumptions_by_eval as _abe
     for path, f in facts.fns.items():
-        if f["kind"] not in ("Fn", "AssocFn", "Closure"):
+        if f["kind"] not in ("Fn", "AssocFn", "Closure") or path in getattr(facts, "spliced_helpers", ()):
             continue
         fx = fn_terms(facts, path)
         for c in fx.calls():
-            if c.callee == GFT and len(c.args) == 4 and const_int(c.args[3]) != 0:
+            if c.callee != GFT:
+                continue
+            if disp is None:
+                undecided.append((path, whyd))
+                continue
+            sel, table = disp
+            # which selector values can this call pass?  constants are evaluated, anything else ranges over its domain
+            import itertools as _it
+            doms = []
+            for i, d in sel:
+                try:
+                    doms.append((_ie(fx, c.args[i - 1], {}, {}),))
+                except _Und:
+                    doms.append(d)
+            leafs = {table.get(combo) for combo in _it.product(*doms)}
+            if path == CST:
+                # the spherical-triangle construction: squashed exactly when reflected
+                rq, wq = requested_triangle(facts, fx, c, ("param", 4))
+                if rq != {0: ("base",), 1: ("refl", 1)}:
+                    undecided.append((path, "compute_spherical_triangle fetches %s" % (rq if rq is not None else wq)))
                 sq_true.append((path, c))
-    only = {p for p, _ in sq_true} == {CST} and all(const_int(c.args[3]) == 1 for _, c in sq_true)
-    run.inst("C15.S3", "squashed-only-for-spherical-triangle", only, "squashed face triangles are requested by %s" % sorted({p.split("::")[-1] for p, _ in sq_true}))
+            elif ("refl", 1) in leafs:
+                # a bool / enum that is not a constant may still never take the squashed value: decide by the reflection flag
+                sq_true.append((path, c))
+    # (forward / inverse are decided exactly in S1: their request is evaluated as a function of the reflection flag)
+    sq_true = [(p, c) for p, c in sq_true if p == CST or p not in (FWD, INV)]
+    only = {p for p, _ in sq_true} == {CST} and not undecided
+    run.inst("C15.S3", "squashed-only-for-spherical-triangle", only, "squashed face triangles are requested by %s%s" % (
+        sorted({p.split("::")[-1] for p, _ in sq_true}), "" if not undecided else "; undecided: %s" % undecided[:2]))
     # S4: closed-form shortcuts are continuous where they switch: both formulas of a threshold-guarded helper agree at the threshold
     from ..query import feval, Undetermined as _U, returns_under as _ru, regime_assumptions as _ra, deep_resolve as _dr
     from ..terms import const_float as _cf
